@@ -594,6 +594,63 @@ theorem group_ops_isolated (q : Quirks) (s : St) (gname other : Name) (op : GOp)
   | none => exact ⟨rfl, rfl, rfl⟩
   | some grp => exact ⟨by simp [alGet_alSet, Ne.symm hne], rfl, rfl⟩
 
+/-! ### 4. Handler level: all-or-nothing multi-stream reads, names, the border id -/
+
+/-- A multi-stream XREADGROUP whose later stream fails is refused, and on a tree that validates before delivering
+    (`multiFix`) it changes nothing — "a refused command changes nothing", "delivered under `>` exactly once". -/
+theorem multi_stream_read_all_or_nothing (q : Quirks) (stream : List Id) (g : Group) (c : Name) (count : Option Nat)
+    (noack : Bool) :
+    (Code.multiReadFailing q stream g c count noack).2 = .refused ∧
+    (q.multiFix = true → (Code.multiReadFailing q stream g c count noack).1 = g) := by
+  unfold Code.multiReadFailing
+  constructor
+  · split <;> rfl
+  · intro h; simp [h]
+
+/-- WITNESS: on the pinned tree `XREADGROUP GROUP g c1 STREAMS s t > >` with no group g on t answers NOGROUP but has
+    made 1-0 pending for c1 and moved the cursor of s: 1-0 is never delivered under `>` again. -/
+theorem multi_stream_read_delivers_before_failing_when_pinned :
+    let g := Code.newGroup Quirks.pinned (0, 0)
+    (Code.multiReadFailing Quirks.pinned [(1, 0)] g 1 none false).1.byId = [⟨(1, 0), 1, 1⟩] ∧
+    (Code.multiReadFailing Quirks.pinned [(1, 0)] g 1 none false).1.lastDelivered = (1, 0) ∧
+    (Code.multiReadFailing Quirks.fixed [(1, 0)] g 1 none false).1 = g := by
+  refine ⟨rfl, rfl, rfl⟩
+
+/-- WITNESS: the lossy UTF-8 conversion stores the two distinct binary names (transported as 100 and 101) under one
+    name, so they are one group / one consumer; the repaired tree refuses such names instead. -/
+theorem binary_names_collide_when_lossy :
+    Code.lossyName 100 = Code.lossyName 101 ∧ (100 : Name) ≠ 101 ∧ ∀ n, Code.isBinaryName n = false → Code.lossyName n = n := by
+  refine ⟨rfl, by decide, ?_⟩
+  intro n h
+  simp only [Code.isBinaryName, Bool.or_eq_false_iff, decide_eq_false_iff_not] at h
+  simp [Code.lossyName, h.1, h.2]
+
+/-- The explicit id `18446744073709551615-18446744073709551615`: the property's reading is "the consumer's pending
+    entries after it" — none, for ids that fit in 64 bits; the pinned handler reads it as `>` (WITNESS), the
+    repaired one as what it says; every other explicit id is read as itself on both. -/
+theorem explicit_max_id (q : Quirks) :
+    Code.explicitFrom Quirks.pinned Code.maxId = none ∧
+    Code.explicitFrom Quirks.fixed Code.maxId = some Code.maxId ∧
+    (∀ a, a ≠ Code.maxId → Code.explicitFrom q a = some a) ∧
+    (∀ (g : Spec.Group) c count,
+      (∀ x ∈ g.pending, x.1.1 < 18446744073709551616 ∧ x.1.2 < 18446744073709551616) →
+      Spec.readHist g c Code.maxId count = []) := by
+  refine ⟨rfl, rfl, ?_, ?_⟩
+  · intro a h; simp [Code.explicitFrom, h]
+  · intro g c count hb
+    have : g.pending.filter (fun x => x.2 == c && idLt Code.maxId x.1) = [] := by
+      rw [List.filter_eq_nil_iff]
+      intro x hx hp
+      simp only [Bool.and_eq_true] at hp
+      have h1 := hp.2
+      rw [idLt_iff] at h1
+      have := hb x hx
+      simp only [Code.maxId] at h1
+      omega
+    unfold Spec.readHist
+    simp only [this, List.map_nil]
+    cases count <;> simp
+
 /-! ### Non-vacuity: concrete non-trivial instances of the hypotheses -/
 
 /-- an agreeing state with two consumers, three pending rows, reached by real operations -/
